@@ -1103,6 +1103,7 @@ Section HistoryProofs.
       + unfold item_step, validate_step in Ei.
         destruct (validate_content node_hash decode decode_account (ev_header ev) (ev_req ev)) as [[]|e|] eqn:Ev.
         * destruct (put node_hash (ev_req ev)) as [b|e|] eqn:Ep; inversion Ei; subst vs1 s1 o; try (now left).
+          destruct (ev_store_ok ev); [|now left].
           unfold store_put in Hs1. cbn [store_get] in Hs1.
           destruct (bytes_eqb (ev_id ev) id) eqn:Eid; [|now left].
           apply bytes_eqb_eq in Eid. inversion Hs1; subst b. right. exists ev.
